@@ -5,6 +5,8 @@ import (
 	"encoding/json"
 	"fmt"
 	"os"
+	"sync"
+	"time"
 
 	"compiler/verifh/c01"
 	"compiler/verifh/c02"
@@ -72,6 +74,10 @@ func main() {
 		fmt.Println(string(j))
 		return
 	}
+	if len(os.Args) >= 5 && os.Args[1] == "bench-native" {
+		benchNative(os.Args[2], os.Args[3], os.Args[4])
+		return
+	}
 	if len(os.Args) < 3 {
 		fmt.Fprintln(os.Stderr, "usage: check <Cnn> quick|thorough|triage")
 		os.Exit(2)
@@ -83,4 +89,36 @@ func main() {
 		os.Exit(2)
 	}
 	f(vl.Begin(prop, tier))
+}
+
+// benchNative <file.fer> <n> <workers>: throughput of the in-process native pipeline.
+func benchNative(file, ns, ws string) {
+	b, err := os.ReadFile(file)
+	if err != nil {
+		panic(err)
+	}
+	var n, w int
+	fmt.Sscan(ns, &n)
+	fmt.Sscan(ws, &w)
+	c := vl.Begin("C01", "quick")
+	libs := c.BuildRuntime()
+	os.Setenv("FERRET_LIBS_PATH", libs)
+	pool := fe.NewPool(c.W, libs, w)
+	t0 := time.Now()
+	okc := int64(0)
+	var mu sync.Mutex
+	pool.Map(n, func(i int) *fe.Project {
+		return &fe.Project{Files: map[string]string{"main.fer": string(b)}, Entry: "main.fer", Mode: "native", NoRender: true}
+	}, func(i int, r *fe.Result) {
+		mu.Lock()
+		if r.ExeOnDisk {
+			okc++
+		} else if okc == 0 {
+			fmt.Println("no exe:", r.Success, r.Panic, r.RunErr, r.Crash, r.ErrSummary())
+		}
+		mu.Unlock()
+	})
+	pool.Close()
+	d := time.Since(t0)
+	fmt.Printf("%d compiles, %d with exe, %d workers: %.2fs = %.1f/s\n", n, okc, w, d.Seconds(), float64(n)/d.Seconds())
 }
